@@ -17,6 +17,7 @@ HERE = os.path.dirname(os.path.abspath(__file__))
 sys.path.insert(0, os.path.dirname(HERE))
 
 from gcverif import pm as pmmod          # noqa: E402
+from gcverif.adopt import run_full
 from gcverif.report import Ctx, finalize  # noqa: E402
 
 
@@ -68,7 +69,7 @@ def _one_twin(i):
     try:
         pm2 = pm.mutated({rel: src})
         ctx2 = Ctx(mod.PROP, "control", quiet=True)
-        mod.run(pm2, ctx2)
+        run_full(mod, pm2, ctx2)
     except pmmod.AnalysisError as e:
         return {"name": name, "status": "undecided", "note": str(e)[:200]}
     base = _G["base_keys"]
@@ -146,7 +147,7 @@ def _one_seed(i):
     try:
         pm2 = pm.mutated(changes)
         ctx2 = Ctx(mod.PROP, "control", quiet=True)
-        mod.run(pm2, ctx2)
+        run_full(mod, pm2, ctx2)
     except pmmod.AnalysisError as e:
         return {"id": sid, "status": "undecided", "note": str(e)[:200]}
     except Exception as e:      # a seeded defect must never crash the analysis
@@ -199,7 +200,7 @@ def _run_control(mod, pm, tier, c):
         try:
             pm2 = pm.mutated(changes, predesugared=pre)
             ctx2 = Ctx(mod.PROP, "control", quiet=True)
-            mod.run(pm2, ctx2)
+            run_full(mod, pm2, ctx2)
             fired = [f for f in ctx2.findings if f.rule == c["rule"] or f.rule in c.get("also", ())]
             base_keys = c.get("_base_keys", set())
             fired = [f for f in fired if f.key_tuple() not in base_keys]
@@ -230,7 +231,7 @@ def main():
         sources = sources_at_rev(a.rev) if a.rev else None
         pm = pmmod.ProgramModel(sources)
         ctx = Ctx(prop, a.tier)
-        mod.run(pm, ctx)
+        run_full(mod, pm, ctx)
         base_keys = {f.key_tuple() for f in ctx.findings}
         controls = []
         if not a.no_controls:
@@ -240,7 +241,7 @@ def main():
 
                 def wrapped(pm_, tier_):
                     return [dict(c, _base_keys=base_keys) for c in orig(pm_, tier_)]
-                mod_controls = type("M", (), {"PROP": mod.PROP, "run": staticmethod(mod.run),
+                mod_controls = type("M", (), {"PROP": mod.PROP, "run": staticmethod(mod.run), "ADOPT": getattr(mod, "ADOPT", ()),
                                               "controls": staticmethod(wrapped)})
                 controls = run_controls(mod_controls, pm, a.tier)
         census = pm.census()
